@@ -41,10 +41,34 @@ def fixtures(pre: str) -> None:
     print(" ".join(out))
 
 
+def verdict_digest(seed: int, n: int) -> str:
+    import os
+    import random as _r
+
+    from . import impl
+    from .props import c12
+
+    rng = _r.Random(f"c12cfg:{seed}")
+    pool = c12.build_pool(rng)
+    h = hashlib.sha256()
+    for _ in range(n):
+        op, args = c12.rand_call(rng, pool)
+        with impl.quiet_stdout(os.environ.get("PYTHONIOENCODING", "utf-8") or "utf-8"):
+            h.update(impl._run(op, args).encode())
+    return h.hexdigest()
+
+
 if __name__ == "__main__":
     cmd = sys.argv[1]
     if cmd == "serdigest":
         serdigest(int(sys.argv[2]), int(sys.argv[3]))
+    elif cmd == "verdicts":
+        import importlib
+        import os
+
+        for m in [x for x in os.environ.get("CCTV_PREIMPORT", "").split(",") if x]:
+            importlib.import_module(m)
+        print(verdict_digest(int(sys.argv[2]), int(sys.argv[3])))
     elif cmd == "fixtures":
         fixtures(sys.argv[2] if len(sys.argv) > 2 else "")
     else:
